@@ -26,6 +26,7 @@ type c20Case struct {
 	Class string   `json:"class"` // verify, repair, create, usage, badext
 	State string   `json:"state"` // intact, deleted, shifted, unrepairable, noparity-intact, noparity-damaged, badindex, noindex
 	Cwd   string   `json:"cwd"`   // set, parent, unrelated
+	Then  []string `json:"then,omitempty"` // further steps after Cmd on the same directory: v, va, r, rd (commands), del0 / restore (events)
 }
 
 var c20P2Sizes = []int{11, 6}
@@ -50,6 +51,37 @@ func c20Gen(g *core.Gen) {
 				for _, c := range repairCmds {
 					g.Emit(&c20Case{Fmt: f, Cmd: c, Class: "repair", State: st, Cwd: cw})
 				}
+			}
+		}
+		// histories of commands: every sequence of 2 (thorough 3) further steps from {verify, verify -a, repair, repair -doublecheck,
+		// delete a file, restore all files} after a first verify or repair, from 5 starting states
+		thens := []string{"v", "va", "r", "rd", "del0", "restore"}
+		depthThen := 2
+		if g.Thorough() {
+			depthThen = 3
+		}
+		for _, st := range []string{"deleted", "shifted+deleted", "unrepairable", "noparity-damaged", "recreated-deleted"} {
+			for fi, first := range [][]string{{"verify", "{PAR}"}, {"repair", "{PAR}"}} {
+				var rec func(cur []string)
+				rec = func(cur []string) {
+					if len(cur) == depthThen {
+						ev := 0
+						for _, x := range cur {
+							if x == "del0" || x == "restore" {
+								ev++
+							}
+						}
+						if ev == len(cur) {
+							return // no command in it
+						}
+						g.Emit(&c20Case{Fmt: f, Cmd: first, Class: []string{"verify", "repair"}[fi], State: st, Cwd: cwds[(len(cur[0])+len(cur[1])+fi)%3], Then: append([]string{}, cur...)})
+						return
+					}
+					for _, x := range thens {
+						rec(append(cur, x))
+					}
+				}
+				rec(nil)
 			}
 		}
 		for _, cw := range cwds {
@@ -216,205 +248,228 @@ func c20Run(ci interface{}, r *core.Rec) {
 	case "noindex":
 		os.Remove(index)
 	}
-	// reference truth about the state
-	allIntact := func() bool {
-		for i, p := range paths {
-			b, err := ioutil.ReadFile(p)
-			if err != nil || !bytes.Equal(b, datas[i]) {
-				return false
+	step := func(cmdT []string, cls string) {
+		// reference truth about the state
+		allIntact := func() bool {
+			for i, p := range paths {
+				b, err := ioutil.ReadFile(p)
+				if err != nil || !bytes.Equal(b, datas[i]) {
+					return false
+				}
 			}
+			return true
 		}
-		return true
-	}
-	needed := !allIntact()
-	possible := true
-	if c.Fmt == "p2" {
-		var specs []rpar2.FileSpec
-		for i := range paths {
-			specs = append(specs, rpar2.FileSpec{Name: fmt.Sprintf("f%d", i), Data: datas[i]})
-		}
-		set := rpar2.NewSet(4, specs)
-		var surv [][]byte
-		for _, p := range paths {
-			if b, err := ioutil.ReadFile(p); err == nil {
-				surv = append(surv, b)
+		needed := !allIntact()
+		possible := true
+		if c.Fmt == "p2" {
+			var specs []rpar2.FileSpec
+			for i := range paths {
+				specs = append(specs, rpar2.FileSpec{Name: fmt.Sprintf("f%d", i), Data: datas[i]})
 			}
-		}
-		k := scan.Scan(set.AllSlices(), 4, surv).CountMissing()
-		blocks := map[uint32]bool{} // distinct intact recovery blocks
-		for _, p := range recFiles() {
-			b, _ := ioutil.ReadFile(p)
-			for _, e := range scen.IntactExponents(b, set.SetID, 4) {
-				blocks[e] = true
+			set := rpar2.NewSet(4, specs)
+			var surv [][]byte
+			for _, p := range paths {
+				if b, err := ioutil.ReadFile(p); err == nil {
+					surv = append(surv, b)
+				}
 			}
-		}
-		possible = k <= len(blocks)
-	} else {
-		un := 0
-		for i, p := range paths {
-			b, err := ioutil.ReadFile(p)
-			if err != nil || !bytes.Equal(b, datas[i]) {
-				un++
+			k := scan.Scan(set.AllSlices(), 4, surv).CountMissing()
+			blocks := map[uint32]bool{} // distinct intact recovery blocks
+			for _, p := range recFiles() {
+				b, _ := ioutil.ReadFile(p)
+				for _, e := range scen.IntactExponents(b, set.SetID, 4) {
+					blocks[e] = true
+				}
 			}
+			possible = k <= len(blocks)
+		} else {
+			un := 0
+			for i, p := range paths {
+				b, err := ioutil.ReadFile(p)
+				if err != nil || !bytes.Equal(b, datas[i]) {
+					un++
+				}
+			}
+			possible = un <= len(recFiles())
 		}
-		possible = un <= len(recFiles())
-	}
 
-	cwd := setDir
-	switch c.Cwd {
-	case "parent":
-		cwd = filepath.Dir(setDir)
-	case "unrelated":
-		cwd = unrelated
-	}
-	spell := func(abs string) string {
-		if c.Cwd == "unrelated" {
-			return abs
+		cwd := setDir
+		switch c.Cwd {
+		case "parent":
+			cwd = filepath.Dir(setDir)
+		case "unrelated":
+			cwd = unrelated
 		}
-		rel, _ := filepath.Rel(cwd, abs)
-		return rel
-	}
-	var argv []string
-	for _, a := range c.Cmd {
-		switch a {
-		case "{PAR}":
-			a = spell(index)
-		case "{F0}":
-			a = spell(paths[0])
-		case "{F1}":
-			a = spell(paths[1])
-		case "{MISSING}":
-			a = spell(filepath.Join(setDir, "does-not-exist"))
-		case "{NODIR}":
-			a = spell(filepath.Join(setDir, "no", "such", "dir", "s"+ext))
-		case "{ZIP}":
-			a = spell(filepath.Join(setDir, "s.zip"))
-		case "{NOEXT}":
-			a = spell(filepath.Join(setDir, "s"))
+		spell := func(abs string) string {
+			if c.Cwd == "unrelated" {
+				return abs
+			}
+			rel, _ := filepath.Rel(cwd, abs)
+			return rel
 		}
-		argv = append(argv, a)
-	}
-	before := snapTree(root)
-	cmd := exec.Command(bin, argv...)
-	cmd.Dir = cwd
-	var outb bytes.Buffer
-	cmd.Stdout = &outb
-	cmd.Stderr = &outb
-	err := cmd.Run()
-	code := 0
-	if ee, ok := err.(*exec.ExitError); ok {
-		code = ee.ExitCode()
-	} else if err != nil {
-		r.Violatef("harness:cannot-run-par", "%v", err)
-		return
-	}
-	r.AddStates(1)
-	r.AddTransitions(1)
-	out := outb.String()
-	what := fmt.Sprintf("par %v (cwd=%s, state=%s, %s): exit %d", argv, c.Cwd, c.State, c.Fmt, code)
-	r.Outcome(fmt.Sprintf("%s %s %s %d", c.Fmt, c.Class, c.State, code))
-	if strings.Contains(out, "goroutine ") && strings.Contains(out, "panic:") {
-		r.Violatef("par-panicked", "%s\n%s", what, tailOf(out, 1500))
-		return
-	}
-	after := snapTree(root)
-	fail := func(sig string) { r.Violatef(sig, "%s\n%s", what, tailOf(out, 600)) }
-	switch c.Class {
-	case "usage":
-		if code != 3 {
-			fail("usage-error-not-exit-3")
+		var argv []string
+		for _, a := range cmdT {
+			switch a {
+			case "{PAR}":
+				a = spell(index)
+			case "{F0}":
+				a = spell(paths[0])
+			case "{F1}":
+				a = spell(paths[1])
+			case "{MISSING}":
+				a = spell(filepath.Join(setDir, "does-not-exist"))
+			case "{NODIR}":
+				a = spell(filepath.Join(setDir, "no", "such", "dir", "s"+ext))
+			case "{ZIP}":
+				a = spell(filepath.Join(setDir, "s.zip"))
+			case "{NOEXT}":
+				a = spell(filepath.Join(setDir, "s"))
+			}
+			argv = append(argv, a)
 		}
-	case "badext":
-		if code == 0 || code == 3 {
-			fail("failure-exit-status-wrong")
+		before := snapTree(root)
+		cmd := exec.Command(bin, argv...)
+		cmd.Dir = cwd
+		var outb bytes.Buffer
+		cmd.Stdout = &outb
+		cmd.Stderr = &outb
+		err := cmd.Run()
+		code := 0
+		if ee, ok := err.(*exec.ExitError); ok {
+			code = ee.ExitCode()
+		} else if err != nil {
+			r.Violatef("harness:cannot-run-par", "%v", err)
+			return
 		}
-	case "verify":
-		if c.State == "badindex" || c.State == "noindex" {
+		r.AddStates(1)
+		r.AddTransitions(1)
+		out := outb.String()
+		what := fmt.Sprintf("par %v (cwd=%s, state=%s, %s): exit %d", argv, c.Cwd, c.State, c.Fmt, code)
+		r.Outcome(fmt.Sprintf("%s %s %s %d", c.Fmt, cls, c.State, code))
+		if strings.Contains(out, "goroutine ") && strings.Contains(out, "panic:") {
+			r.Violatef("par-panicked", "%s\n%s", what, tailOf(out, 1500))
+			return
+		}
+		after := snapTree(root)
+		fail := func(sig string) { r.Violatef(sig, "%s\n%s", what, tailOf(out, 600)) }
+		switch cls {
+		case "usage":
+			if code != 3 {
+				fail("usage-error-not-exit-3")
+			}
+		case "badext":
 			if code == 0 || code == 3 {
 				fail("failure-exit-status-wrong")
 			}
-			break
-		}
-		if code == 0 && needed {
-			fail("verify-exit-0-but-damaged")
-		}
-		if needed && possible && code != 1 {
-			fail("verify-needed-possible-not-exit-1")
-		}
-		if needed && !possible && code != 2 {
-			fail("verify-needed-impossible-not-exit-2")
-		}
-		if !needed && code != 0 {
-			fail("verify-intact-not-exit-0")
-		}
-		if d := diffTree(before, after); len(d) > 0 {
-			fail("verify-changed-files")
-		}
-	case "repair":
-		if c.State == "badindex" || c.State == "noindex" {
-			if code == 0 || code == 3 {
-				fail("failure-exit-status-wrong")
+		case "verify":
+			if c.State == "badindex" || c.State == "noindex" {
+				if code == 0 || code == 3 {
+					fail("failure-exit-status-wrong")
+				}
+				break
 			}
-			break
-		}
-		if code == 0 && !allIntact() {
-			fail("repair-exit-0-but-still-damaged")
-		}
-		if needed && !possible && code != 2 {
-			fail("repair-needed-impossible-not-exit-2")
-		}
-		if (!needed || possible) && code != 0 {
-			// repair possible (or nothing to do) must succeed: the only excuse would be a singular system, impossible with contiguous blocks
-			fail("repair-possible-but-failed")
-		}
-	case "create":
-		if strings.HasPrefix(c.State, "blocked-") {
-			// whichever names Create chose, exit 0 is acceptable only if the written set is complete (checked below);
-			// with the conventional names the blocked path makes one write fail, which must not exit 0
-			if code == 3 {
-				fail("failure-exit-status-wrong")
+			if code == 0 && needed {
+				fail("verify-exit-0-but-damaged")
+			}
+			if needed && possible && code != 1 {
+				fail("verify-needed-possible-not-exit-1")
+			}
+			if needed && !possible && code != 2 {
+				fail("verify-needed-impossible-not-exit-2")
+			}
+			if !needed && code != 0 {
+				fail("verify-intact-not-exit-0")
+			}
+			if d := diffTree(before, after); len(d) > 0 {
+				fail("verify-changed-files")
+			}
+		case "repair":
+			if c.State == "badindex" || c.State == "noindex" {
+				if code == 0 || code == 3 {
+					fail("failure-exit-status-wrong")
+				}
+				break
+			}
+			if code == 0 && !allIntact() {
+				fail("repair-exit-0-but-still-damaged")
+			}
+			if needed && !possible && code != 2 {
+				fail("repair-needed-impossible-not-exit-2")
+			}
+			if (!needed || possible) && code != 0 {
+				// repair possible (or nothing to do) must succeed: the only excuse would be a singular system, impossible with contiguous blocks
+				fail("repair-possible-but-failed")
+			}
+		case "create":
+			if strings.HasPrefix(c.State, "blocked-") {
+				// whichever names Create chose, exit 0 is acceptable only if the written set is complete (checked below);
+				// with the conventional names the blocked path makes one write fail, which must not exit 0
+				if code == 3 {
+					fail("failure-exit-status-wrong")
+					break
+				}
+				if code != 0 {
+					break
+				}
+			} else if c.State != "fresh" {
+				if code == 0 || code == 3 {
+					fail("failure-exit-status-wrong")
+				}
 				break
 			}
 			if code != 0 {
+				fail("create-failed")
 				break
 			}
-		} else if c.State != "fresh" {
-			if code == 0 || code == 3 {
-				fail("failure-exit-status-wrong")
+			// the set must exist relative to the invocation directory and verify clean
+			if _, err := os.Stat(index); err != nil {
+				fail("create-exit-0-but-no-index-at-expected-path")
+				break
 			}
-			break
-		}
-		if code != 0 {
-			fail("create-failed")
-			break
-		}
-		// the set must exist relative to the invocation directory and verify clean
-		if _, err := os.Stat(index); err != nil {
-			fail("create-exit-0-but-no-index-at-expected-path")
-			break
-		}
-		var verr error
-		clean := false
-		// the number of recovery blocks / volumes asked for (-c N, default 3) must all be there
-		want := 3
-		for i, a := range c.Cmd {
-			if a == "-c" && i+1 < len(c.Cmd) {
-				fmt.Sscan(c.Cmd[i+1], &want)
+			var verr error
+			clean := false
+			// the number of recovery blocks / volumes asked for (-c N, default 3) must all be there
+			want := 3
+			for i, a := range cmdT {
+				if a == "-c" && i+1 < len(cmdT) {
+					fmt.Sscan(cmdT[i+1], &want)
+				}
+			}
+			if c.Fmt == "p2" {
+				res, e := par2.Verify(index, par2.VerifyOptions{NumGoroutines: 1})
+				verr, clean = e, e == nil && !res.ShardCounts.RepairNeeded() && res.ShardCounts.UsableParityShardCount == want
+			} else {
+				res, e := par1.Verify(index, par1.VerifyOptions{VerifyAllData: true})
+				verr, clean = e, e == nil && res.AllDataOk && res.FileCounts.UsableParityFileCount == want
+			}
+			if !clean {
+				r.Violatef("create-exit-0-but-set-not-valid", "%s; library Verify: %v", what, verr)
+			}
+			for p := range after {
+				if _, ok := before[p]; !ok && !strings.HasPrefix(p, setDir+"/s.") {
+					r.Violatef("create-wrote-unexpected-file", "%s created %s", what, p)
+				}
 			}
 		}
-		if c.Fmt == "p2" {
-			res, e := par2.Verify(index, par2.VerifyOptions{NumGoroutines: 1})
-			verr, clean = e, e == nil && !res.ShardCounts.RepairNeeded() && res.ShardCounts.UsableParityShardCount == want
-		} else {
-			res, e := par1.Verify(index, par1.VerifyOptions{VerifyAllData: true})
-			verr, clean = e, e == nil && res.AllDataOk && res.FileCounts.UsableParityFileCount == want
-		}
-		if !clean {
-			r.Violatef("create-exit-0-but-set-not-valid", "%s; library Verify: %v", what, verr)
-		}
-		for p := range after {
-			if _, ok := before[p]; !ok && !strings.HasPrefix(p, setDir+"/s.") {
-				r.Violatef("create-wrote-unexpected-file", "%s created %s", what, p)
+
+	}
+	step(c.Cmd, c.Class)
+	// history: further commands on the directory as the previous one left it, each judged against the truth at that moment
+	for _, k := range c.Then {
+		switch k {
+		case "v":
+			step([]string{"verify", "{PAR}"}, "verify")
+		case "va":
+			step([]string{"verify", "-a", "{PAR}"}, "verify")
+		case "r":
+			step([]string{"repair", "{PAR}"}, "repair")
+		case "rd":
+			step([]string{"repair", "-doublecheck", "{PAR}"}, "repair")
+		case "del0":
+			os.Remove(paths[0])
+		case "restore":
+			for i, p := range paths {
+				ioutil.WriteFile(p, datas[i], 0644)
 			}
 		}
 	}
@@ -442,7 +497,7 @@ func init() {
 	core.Register(&core.Prop{
 		ID:    "C20",
 		Level: "model_checking",
-		Rule: "full product through the built par binary: {PAR1, PAR2} x {verify, v, VERIFY, -g 2 verify, verify -a; repair, r, Repair, repair -doublecheck, -g 3 r -doublecheck=true} x archive state {intact, repairable by deletion, by shift/change, by removing appended bytes, shift+deletion, unrepairable, no parity (data intact / file deleted / file only shifted), one block left + shift, damaged index, missing index} x invocation directory {set directory with relative paths, parent with relative paths, unrelated with absolute paths}; create variants (incl. missing input, missing directory, an output path blocked by a directory: index, first and last recovery file), 11 usage-error command lines, unknown extensions. " +
+		Rule: "full product through the built par binary: {PAR1, PAR2} x {verify, v, VERIFY, -g 2 verify, verify -a; repair, r, Repair, repair -doublecheck, -g 3 r -doublecheck=true} x archive state {intact, repairable by deletion, by shift/change, by removing appended bytes, shift+deletion, unrepairable, no parity (data intact / file deleted / file only shifted), one block left + shift, damaged index, missing index} x invocation directory {set directory with relative paths, parent with relative paths, unrelated with absolute paths}; command histories: a first verify / repair followed by every sequence of 2 (thorough 3) further steps from {verify, verify -a, repair, repair -doublecheck, delete a file, restore all files} from 5 starting states, every command judged against the byte truth at that moment; create variants (incl. missing input, missing directory, an output path blocked by a directory: index, first and last recovery file), 11 usage-error command lines, unknown extensions. " +
 			"Oracle (one-directional, as stated): exit 0 => full success by byte truth / library re-verification; verify needed&possible => 1, needed&impossible => 2; repair needed&impossible => 2, possible => 0 and files restored; usage => 3; other failures => neither 0 nor 3; no Go panic; files created relative to the invocation directory. non-trivial = verify/repair/create runs",
 		Assumptions: []string{"'needed' = some protected file not byte-identical; 'possible' = reference count of unfindable slices (unusable files) <= intact recovery blocks (volumes) present"},
 		NewCase:     func() interface{} { return &c20Case{} },
